@@ -142,11 +142,13 @@ partial def decEv (j : Json) : Except String Ev := do
       | none => throw s!"unknown divisor {dn}"
   | "qd" | "lr" => do
       let qn ← j.getObjValAs? String "quota"
-      let q ← match qn with
-        | "hare" => pure Gen.Quota.hare
-        | "droop" => pure Gen.Quota.droop
-        | "hagenbach_bischoff" => pure Gen.Quota.hagenbach_bischoff
-        | "imperiali" => pure Gen.Quota.imperiali
+      let div (v : Rat) (d : Int) : Except Err Rat := if d = 0 then .error eZeroDiv else .ok (v / (d : Rat))
+      let (q, qInt) ← match qn with
+        | "hare" => pure (Gen.Quota.hare, fun v (n : Int) => div v n)
+        | "droop" => pure (Gen.Quota.droop, fun v (n : Int) => do
+            let x ← div v (n + 1); pure (((VL.Py.pyInt x + 1 : Int) : Rat)))
+        | "hagenbach_bischoff" => pure (Gen.Quota.hagenbach_bischoff, fun v (n : Int) => div v (n + 1))
+        | "imperiali" => pure (Gen.Quota.imperiali, fun v (n : Int) => div v (n + 2))
         | _ => throw s!"unknown quota {qn}"
       let ae ← j.getObjValAs? Bool "accept_equal"
       let pol ← j.getObjValAs? String "on_overaward"
@@ -155,7 +157,7 @@ partial def decEv (j : Json) : Except String Ev := do
         | "ignore" => pure QD.OnOver.ignore
         | "subtract" => pure QD.OnOver.subtract
         | _ => throw s!"bad policy {pol}"
-      pure (.leaf haSig (quotaLeaf (k == "lr") ⟨q, ae, onOver⟩ (qn == "hare")))
+      pure (.leaf haSig (quotaLeaf (k == "lr") ⟨q, ae, onOver⟩ qInt (qn == "hare")))
   | "abs_thr" => do let (t, eq) ← getThr j; pure (.leaf seatlessSig (absThresholdLeaf t eq))
   | "rel_thr" => do let (t, eq) ← getThr j; pure (.leaf seatlessSig (relThresholdLeaf t eq))
   | "prev_gain_thr" => do let (t, eq) ← getThr j; pure (.leaf prevGainSig (prevGainThresholdLeaf t eq))
